@@ -100,6 +100,8 @@ class C03(core.Prop):
         for _ in range(rounds):
             for kind in sorted(msggen.GRAMMAR):
                 msgs.append(rich_message(rng, kind))
+            # the registry also holds a stand-alone oneLight message (same tag as the part of that name)
+            msgs.append({"kind": "oneLight", "attrs": {"name": rng.choice(msggen.NAMES)}, "value": rng.choice(msggen.STATES), "children": None})
         # the model's own serialisation of every message (implementation must read it back)
         mdocs, err = core.run_model("tostring", [msggen.sx_msg(m) for m in msgs])
         for m, md in zip(msgs, mdocs or [None] * len(msgs)):
@@ -116,6 +118,10 @@ class C03(core.Prop):
             for doc in ("<a%s/>" % ch, "<%s/>" % ch, "<a>%s</a>" % ch, '<a b="%s"/>' % ch, "<a %s='1'/>" % ch):
                 cases.append({"type": "xml", "doc": doc})
         return cases
+
+    def repass(self, cases):
+        # every message case again in one process: parsing one kind must not depend on which kinds were parsed before
+        return [i for i, c in enumerate(cases) if c["type"] == "msg"]
 
     def model_input2(self, c, obs):
         if c["type"] == "xml":
